@@ -450,7 +450,7 @@ pub fn run(cfg: &Cfg) -> Report {
         // (a) values of every exact length around the interesting boundaries
         let mut lens: Vec<usize> = (0..=20).collect();
         lens.extend_from_slice(&[23, 24, 25, 31, 32, 33, 47, 48, 63, 64, 65, 126, 127, 128, 129, 252, 253, 254, 255, 256, 257, 258, 506, 507, 508, 509, 510, 511, 512, 761, 762, 763, 764]);
-        let reps = t.cfg.scale(1, 1, 4);
+        let reps = t.cfg.scale(1, 3, 12);
         let mut i = 0u64;
         for _ in 0..reps {
             for &n in &lens {
@@ -467,7 +467,7 @@ pub fn run(cfg: &Cfg) -> Report {
             }
         }
         // (b) ordinary values from the shared generator
-        let n = t.cfg.scale(3, 60, 1500);
+        let n = t.cfg.scale(3, 400, 6000);
         for _ in 0..n {
             if t.cfg.expired() {
                 break;
